@@ -70,7 +70,7 @@ def main():
         meta["confirmed"] = c.stdout.strip().splitlines()[-1] if c.stdout.strip() else "?"
         meta["confirm_ok"] = c.returncode == 0
         sh("git -C %s apply %s" % (WT, patch))
-        env = dict(os.environ, VERIF_REPO=WT)
+        env = dict(os.environ, VERIF_REPO=WT, VERIF_OUT="/tmp/seed/out")
         caught, ran = None, []
         for tier in ("quick", "thorough"):
             r = subprocess.run([os.path.join(VERIF, "check"), prop, "--tier", tier], env=env,
@@ -97,8 +97,7 @@ def main():
         json.dump(meta, open(os.path.join(d, "meta.json"), "w"), indent=1)
         rows.append((sid, meta["result"], meta.get("caught_by", "")[:120]))
         print(rows[-1], meta.get("confirmed"), flush=True)
-    # evidence written during these runs describes the patched trees: restore from git
-    sh("git -C %s checkout -- evidence" % VERIF)
+    shutil.rmtree("/tmp/seed/out", ignore_errors=True)
     sh("git -C /repo worktree remove --force %s" % WT)
     sh("git -C /repo worktree remove --force /tmp/seed/confirm-wt")
     sh("git -C /repo worktree prune")
